@@ -6,15 +6,23 @@ EXTENDS ScannerFanout, Json
 CONSTANTS Sizes, Starts, Ends, Batches, Caps, Aligns, NMs, Bufs, NFs,
           LawBatches   \* the batch sizes of the exhaustive law check (the cover and the random draws use Batches)
 
-\* the log: kinds in pairs, parse classes with period 5, subject families in triples
-MCKind(i) == IF (i \div 2) % 2 = 1 THEN "precert" ELSE "x509"
-MCClass(i) == <<"clean", "nonfatal", "clean", "nonfatal", "fatal">>[(i % 5) + 1]
+\* the log: kinds in pairs (the second dozen the other way round), the classes of ScanSelect.tla with period 12 (readable
+\* with one defect, with several of one layer, with defects of both layers at once; fatal alone and in tolerable
+\* company), subject families in triples
+MCKind(i) == IF ((i \div 2) + (i \div 12)) % 2 = 1 THEN "precert" ELSE "x509"
+MCClass(i) == <<"clean", "der", "field", "der+field", "fatal", "clean", "field+field", "der+der", "fatal+der+field",
+                "der+field+field", "der+der+field", "fatal+field">>[(i % 12) + 1]
 MCFam(i) == IF (i \div 3) % 2 = 0 THEN "alpha" ELSE "beta"
+ASSUME \A i \in Indices : MCClass(i) \in Classes
+ASSUME ClassNamesLaw /\ TolerableComposes /\ AskedLaw
 
-\* every (parse class, kind) occurs, and every (kind, family) among the entries a Matcher-type matcher gets to see
-ASSUME \A cl \in Classes : \A kd \in {"x509", "precert"} : \E i \in Indices : MCClass(i) = cl /\ MCKind(i) = kd
+\* every (class of the log, kind) occurs, among them readable entries with defects of both layers at once; every
+\* (kind, family) occurs among the entries a Matcher-type matcher gets to see
+ASSUME \A i \in Indices : \A kd \in {"x509", "precert"} : \E j \in Indices : MCClass(j) = MCClass(i) /\ MCKind(j) = kd
+ASSUME \A pc \in {"clean", "nonfatal", "fatal"} : \E i \in Indices : ParseClass(MCClass(i)) = pc
+ASSUME \E i \in Indices : LET p == ProfileOfClass(MCClass(i)) IN ~p.fatal /\ p.der >= 1 /\ p.field >= 1
 ASSUME \A kd \in {"x509", "precert"} : \A fm \in {"alpha", "beta"} :
-          \E i \in Indices : MCClass(i) # "fatal" /\ MCKind(i) = kd /\ MCFam(i) = fm
+          \E i \in Indices : ParseClass(MCClass(i)) # "fatal" /\ MCKind(i) = kd /\ MCFam(i) = fm
 ASSUME ClassLaw
 
 \* the harness builds its log from this record
